@@ -494,7 +494,7 @@ func realTimeThrottle(prop string, ops, total int, interval time.Duration, fk bo
 		}
 		// deliveries lo..i certainly all happened inside (ti-interval, ti]: each one after its bef reading, which is
 		// later than ti-interval, and before its at reading, which is not later than ti
-		for bef[lo] <= ti-interval {
+		for lo <= i && bef[lo] <= ti-interval { // (a receive that itself waited an interval or more leaves nothing certain)
 			lo++
 		}
 		if n := i - lo + 1; n > 2*ops+1 {
